@@ -380,6 +380,9 @@ fn assign_and_balance<const D: usize>(
                 }
             });
 
+        #[cfg(coupe_verif)]
+        crate::verif_hooks::kmeans_sweep(assignments, &center_ids);
+
         // Compute total weight for each cluster
         let new_weights = center_ids
             .par_iter()
